@@ -155,6 +155,11 @@ def member_forms(nprev, depth):
         forms.append(["L", "/", "L"])
         forms.append(["-", "L", "/", "L"])
         forms.append(["(", "L", "-", "L", ")", "/", "L"])
+        # a literal spelled with a leading zero is octal in C++ (and C); Fortran reads the same digits as decimal
+        forms.append(["O"])
+        forms.append(["O", "*", "L"])
+        for i in range(nprev):
+            forms.append(["E%d" % i, "+", "O"])
     if depth >= 2:
         for i in range(nprev):
             forms.append(["L", "*", "(", "E%d" % i, "-", "L", ")"])
@@ -171,6 +176,15 @@ def member_forms(nprev, depth):
             forms.append(["E%d" % i, "*", "-", "L"])
             forms.append(["L", "/", "-", "E%d" % i])
             forms.append(["E%d" % i, "-", "-", "L"])
+            # doubled parentheses, and a unary sign in front of a parenthesised sum / difference
+            forms.append(["(", "(", "E%d" % i, "+", "L", ")", ")", "*", "L"])
+            forms.append(["L", "-", "(", "(", "E%d" % i, "-", "L", ")", ")"])
+            forms.append(["-", "(", "E%d" % i, "+", "L", ")"])
+            forms.append(["L", "*", "-", "(", "E%d" % i, "-", "L", ")"])
+            forms.append(["+", "(", "E%d" % i, "-", "L", ")", "*", "L"])
+            # a group whose content begins and ends with parentheses that do not pair with each other
+            forms.append(["L", "/", "(", "(", "E%d" % i, "+", "L", ")", "*", "(", "E%d" % i, "-", "L", ")", ")"])
+            forms.append(["L", "-", "(", "(", "E%d" % i, ")", "+", "(", "L", ")", ")"])
         if nprev >= 2:
             forms.append(["(", "E0", "+", "E1", ")", "*", "L"])
             forms.append(["E0", "-", "(", "E1", "-", "L", ")"])
@@ -178,6 +192,7 @@ def member_forms(nprev, depth):
 
 
 NAMES = ["RED", "Blue", "WHITE", "x4", "Yy"]
+OCTAL = ["010", "017", "0123"]          # spellings of octal literals (concrete: the value is tied to the digits)
 
 
 def shape_text(shape, scoped):
@@ -193,6 +208,8 @@ def shape_text(shape, scoped):
             if t == "L":
                 nl += 1
                 toks.append(str(PLACE_BASE + nl))
+            elif t == "O":
+                toks.append(OCTAL[(i + len(toks)) % len(OCTAL)])
             elif t.startswith("E"):
                 toks.append(NAMES[int(t[1:])])
             else:
@@ -219,6 +236,14 @@ def all_shapes(tier):
 
 
 # ---------------------------------------------------------------------------- evaluation of emitted text
+def lit_value(text, lang):
+    """Value of an integer literal as the language reads it: a leading 0 makes it octal in C and C++, Fortran reads
+    every digit string as decimal."""
+    if lang != "fortran" and len(text) > 1 and text[0] == "0":
+        return int(text, 8)
+    return int(text)
+
+
 def tdiv(a, b):
     """C / C++ / Fortran integer division: truncation toward zero (z3 '/' on Int is Euclidean)."""
     return z3.If(b > 0,
@@ -229,7 +254,7 @@ def tdiv(a, b):
 TOK = re.compile(r"\s*(%s\d+%s|\d+|[A-Za-z_][A-Za-z0-9_]*|[-+*/()])" % (MARK, MARK))
 
 
-def eval_text(text, names, reg, divisors, lits=()):
+def eval_text(text, names, reg, divisors, lits=(), lang="c"):
     """Parse an emitted value expression (ints, markers, identifiers, + - * / parens, unary sign)
     into a z3 Int term.  names: identifier -> z3 term.  Raises KeyError for unknown identifiers."""
     toks = []
@@ -269,9 +294,9 @@ def eval_text(text, names, reg, divisors, lits=()):
             return reg[int(t.strip(MARK))]
         if t.isdigit():
             n = int(t)
-            if PLACE_BASE < n <= PLACE_BASE + len(lits):
+            if t[0] != "0" and PLACE_BASE < n <= PLACE_BASE + len(lits):
                 return lits[n - PLACE_BASE - 1]     # a literal printed back from the expression text
-            return z3.IntVal(n)
+            return z3.IntVal(lit_value(t, lang))
         return names[t]
 
     prec = {"+": 1, "-": 1, "*": 2, "/": 2}
@@ -302,9 +327,9 @@ def eval_ref(e, env, lits, divisors):
     k = e[0]
     if k == "const":
         n = int(e[1])
-        if n > PLACE_BASE:
+        if str(e[1])[0] != "0" and n > PLACE_BASE:
             return lits[n - PLACE_BASE - 1]
-        return z3.IntVal(n)
+        return z3.IntVal(lit_value(str(e[1]), "c++"))
     if k == "id":
         return env[e[1]]
     if k == "paren":
@@ -505,7 +530,7 @@ class EnumHarness(object):
             fname, vtxt = m.group(1), m.group(2)
             if not fname.endswith(name.lower()) or fname in fenv:
                 return ("Fortran parameter %r does not correspond to member %r" % (fname, name), e.model())
-            v = eval_text(vtxt, fenv, self.reg, divisors, self.lits)
+            v = eval_text(vtxt, fenv, self.reg, divisors, self.lits, lang="fortran")
             fenv[fname] = v
             fvals.append(v)
         nz = [d != 0 for d in divisors]
@@ -584,7 +609,7 @@ def concrete_values(w):
     del fi.enum_impl[:]
     wf.wrap_enum(cls if w["scope"] == "class" else None, node, fi)
 
-    def pyeval(text, env):
+    def pyeval(text, env, lang="c"):
         def trunc_div(a, b):
             q = abs(a) // abs(b)
             return q if (a >= 0) == (b >= 0) else -q
@@ -604,7 +629,7 @@ def concrete_values(w):
                 pos[0] += 1
                 return v
             if t.isdigit():
-                return int(t)
+                return lit_value(t, lang)
             return env[t]
         prec = {"+": 1, "-": 1, "*": 2, "/": 2}
 
@@ -639,7 +664,7 @@ def concrete_values(w):
     fenv, fv = {}, []
     for ln in [l.strip() for l in fi.enum_impl if l.strip() and not l.strip().startswith("!")]:
         m = re.match(r"^integer\(C_INT\), parameter :: (\w+) = (.*)$", ln)
-        v = pyeval(m.group(2), fenv)
+        v = pyeval(m.group(2), fenv, "fortran")
         fenv[m.group(1)] = v
         fv.append(v)
     return cxx, cv, fv, wc.enum_impl, fi.enum_impl
@@ -842,7 +867,7 @@ def main():
         "equalities": dict(total.counters),
     }
     assumptions = [
-        "integer literals are decimal and lie in [-2^20, 2^20]; int overflow is outside the claim",
+        "symbolic integer literals are decimal and lie in [-2^20, 2^20]; octal spellings are the three concrete literals 010, 017, 0123; int overflow is outside the claim",
         "division is truncating in C++, C and Fortran; divisors are non-zero",
         "enumerators referenced across enums, non-integer literals and octal/hex spellings are outside the claim",
         "the C++ meaning of the declaration is computed by gen/refdecl.py's independent expression reader",
